@@ -471,18 +471,25 @@ func (c *converter) AppCall(calls []transpiler.AppCall, valueUsed bool) ([]strin
 		argsCopy := call.Args()
 
 		for j, arg := range argsCopy {
-			// If argument is a variable or contains whitespaces, quote it.
-			if strings.HasPrefix(arg, "$") || len(strings.Split(arg, " ")) > 1 {
+			// Quote every argument to pass it as it is (empty strings, whitespaces, globs, shell metacharacters).
+			// Arguments which already contain quotes are expected to take care of the quoting themselves.
+			if !strings.Contains(arg, `"`) {
 				arg = fmt.Sprintf("\"%s\"", arg)
 			}
 			argsCopy[j] = arg
+		}
+		name := call.Name()
+
+		// A program path which contains whitespaces needs to be quoted as well.
+		if strings.ContainsAny(name, " \t") && !strings.Contains(name, `"`) {
+			name = fmt.Sprintf("\"%s\"", name)
 		}
 		space := ""
 
 		if len(argsCopy) > 0 {
 			space = " "
 		}
-		callStrings = append(callStrings, fmt.Sprintf("%s%s%s", call.Name(), space, strings.Join(argsCopy, " ")))
+		callStrings = append(callStrings, fmt.Sprintf("%s%s%s", name, space, strings.Join(argsCopy, " ")))
 	}
 	callString := strings.Join(callStrings, " | ")
 
